@@ -244,7 +244,7 @@ func drawConfig(tp *kernel.Tape, prop, tier string) Config {
 		}
 		c.Craft = tp.Chance("cfg.craft", 1, 2)
 	}
-	if prop == "C06" && tp.Chance("cfg.ghost", 1, 2) {
+	if (prop == "C06" && tp.Chance("cfg.ghost", 1, 2)) || ((prop == "C03" || prop == "C04") && tp.Chance("cfg.ghost3", 1, 3)) {
 		// Tally mode: the property is about what ONE node does with the votes it is given, not about
 		// safety among honest nodes, so here most of the stake is held by simulator-crafted voters
 		// ("ghosts") that vote, duplicate and equivocate in arbitrary patterns and orders.
